@@ -578,7 +578,8 @@ impl Primitive {
     pub fn try_into_numeric_index(&self) -> Result<usize> {
         Ok(match self {
             Primitive::Byte(byte) => *byte as usize,
-            Primitive::BigInt(bigint) => *bigint as usize,
+            Primitive::BigInt(bigint) => usize::try_from(*bigint)
+                .with_context(|| format!("`{bigint}` cannot be used as an index"))?,
             Primitive::Int(int) => *int as usize,
             other => bail!("cannot index with {other}"),
         })
